@@ -790,7 +790,7 @@ Section Model.
     (* the first bucket of `cap` bytes is allocated at once: a capacity no Layout can describe is a failed
        allocation, on which the (infallible) constructors panic *)
     | NewRodeo cap lim => if isize_max <? cap then (w, OPanic) else new_slot w (ORodeo (rodeo_new cap lim))
-    | NewThreaded cap lim => if isize_max <? cap then (w, OPanic) else new_slot w (OThreaded (trodeo_new cap lim))
+    | NewThreaded cap lim => if lf_cap_max <? cap then (w, OPanic) else new_slot w (OThreaded (trodeo_new cap lim))
     end.
 
   Fixpoint run (w : world) (ops : list op) : world * list out :=
